@@ -63,10 +63,10 @@ OBLIGATIONS = [
     kani("c11_normalize_range", ["C11"], "C11.normalize", "bemodel::utils::normalize"),
     # ---- C06 leaves -----------------------------------------------------------------------------------
     kani("c06_fround2_contract", ["C06", "C07", "C08"], "C06.fround2", "bemodel::utils::fround2 (kani::requires/ensures, proof_for_contract)", timeout=600),
-    kani("c06_fround3_contract", ["C06"], "C06.fround3", "bemodel::utils::fround3 (kani::requires/ensures, proof_for_contract)", timeout=900),
+    kani("c06_fround3_contract", ["C06"], "C06.fround3", "bemodel::utils::fround3 (kani::requires/ensures, proof_for_contract)", tier="thorough", timeout=1800),
     kani("c06_fround2_monotone", ["C06"], "C06.fround2.monotone", "bemodel::utils::fround2", tier="thorough", timeout=1800),
-    kani("c06_uext_value_p0", ["C06"], "C06.uext.value", "Wall::u_value_exterior (fround2 replaced by its verified contract; R in binade piece 0 of 11)", timeout=900),
-    kani("c06_uext_value_p1", ["C06"], "C06.uext.value", "Wall::u_value_exterior (fround2 replaced by its verified contract; R in binade piece 1 of 11)", timeout=900),
+    kani("c06_uext_value_p0", ["C06"], "C06.uext.value", "Wall::u_value_exterior (fround2 replaced by its verified contract; R in binade piece 0 of 11: R < 0.25, thorough tier only)", tier="thorough", timeout=1800),
+    kani("c06_uext_value_p1", ["C06"], "C06.uext.value", "Wall::u_value_exterior (fround2 replaced by its verified contract; R in binade piece 1 of 11: R < 0.25, thorough tier only)", tier="thorough", timeout=1800),
     kani("c06_uext_value_p2", ["C06"], "C06.uext.value", "Wall::u_value_exterior (fround2 replaced by its verified contract; R in binade piece 2 of 11)", timeout=900),
     kani("c06_uext_value_p3", ["C06"], "C06.uext.value", "Wall::u_value_exterior (fround2 replaced by its verified contract; R in binade piece 3 of 11)", timeout=900),
     kani("c06_uext_value_p4", ["C06"], "C06.uext.value", "Wall::u_value_exterior (fround2 replaced by its verified contract; R in binade piece 4 of 11)", timeout=900),
@@ -78,7 +78,6 @@ OBLIGATIONS = [
     kani("c06_uext_value_p10", ["C06"], "C06.uext.value", "Wall::u_value_exterior (fround2 replaced by its verified contract; R in binade piece 10 of 11)", timeout=900),
     kani("c06_uext_none", ["C06"], "C06.uext.none", "Wall::u_value_exterior"),
     kani("c06_gnd_notburied", ["C06"], "C06.gnd.notburied", "Wall::u_value_gnd_wall / u_value_gnd_top"),
-    kani("c06_gnd_panicfree", ["C06", "C14"], "C06.gnd.panicfree", "Wall::u_value_gnd_wall / u_value_gnd_slab"),
     # ---- C07 ------------------------------------------------------------------------------------------
     kani("c07_wincons_u", ["C07"], "C07.u.none", "WinCons::u_value", timeout=600, bounded="ConsDb with 1 glass + 1 frame; all scalars and both links symbolic"),
     kani("c07_wincons_g", ["C07"], "C07.g", "WinCons::g_glwi / g_glshwi", timeout=600, bounded="ConsDb with 1 glass + 1 frame; all scalars and the glass link symbolic"),
@@ -92,7 +91,10 @@ OBLIGATIONS = [
     kani("c17_day_of_year", ["C17"], "C17.doy", "convert::from_ctehexml::day_of_year"),
     kani("c03_azimuth_convention", ["C03"], "C03.azimuth", "convert::orientation_bdl_to_52016"),
     kani("c03_azimuth_shift", ["C03"], "C03.azimuth.shift", "convert::orientation_bdl_to_52016"),
-    kani("c03_mirror_y", ["C03"], "C03.mirror", "hulc::bdl::Polygon::mirror_y", pkg="hulc", bounded="1..5 vertices, symbolic coordinates"),
+    kani("c03_mirror_y_1", ["C03"], "C03.mirror", "hulc::bdl::Polygon::mirror_y", pkg="hulc", bounded="polygon of 1 vertices, symbolic coordinates", timeout=600),
+    kani("c03_mirror_y_3", ["C03"], "C03.mirror", "hulc::bdl::Polygon::mirror_y", pkg="hulc", bounded="polygon of 3 vertices, symbolic coordinates", timeout=600),
+    kani("c03_mirror_y_4", ["C03"], "C03.mirror", "hulc::bdl::Polygon::mirror_y", pkg="hulc", bounded="polygon of 4 vertices, symbolic coordinates", timeout=600),
+    kani("c03_mirror_y_5", ["C03"], "C03.mirror", "hulc::bdl::Polygon::mirror_y", pkg="hulc", bounded="polygon of 5 vertices, symbolic coordinates", timeout=600),
     # ---- C20 (climate crate) -------------------------------------------------------------------------
     kani("c20_nday_from_md", ["C20"], "C20.nday", "climate::nday_from_md", pkg="climate"),
     kani("c20_hourangle_range", ["C20"], "C20.hourangle", "climate::solar::hourangle_from_tsol", pkg="climate"),
@@ -131,8 +133,10 @@ OBLIGATIONS = [
     native("n_c06_uint_value", ["C06"], "C06.uint", "Wall::u_value_interior_cond_uncond", TR + "n_c06_uint_value"),
     native("n_c06_uext_mono", ["C06"], "C06.uext.mono", "Wall::u_value_exterior", TR + "n_c06_uext_mono"),
     native("n_c06_dispatch", ["C06"], "C06.dispatch", "Wall::u_value(&Model) / Space::ua_of_external_and_ground_surfaces / Model::global_ventilation_rate", TR + "n_c06_dispatch"),
+    native("n_c06_ground", ["C06"], "C06.ground", "Wall::u_value (GROUND) / u_value_gnd_slab / u_value_gnd_wall / Space::slab_char_dim / slab_d_t / slab_psi_gnd_ext", TR + "n_c06_ground"),
     native("n_c07_wincons_value", ["C07"], "C07.u.value", "WinCons::u_value / g_glwi / g_glshwi", TR + "n_c07_wincons_value"),
     native("n_c07_defaults", ["C07"], "C07.defaults", "EnergyProps::from(&Model) (WinConsProps) / KData::from / QSolJulData::from", TR + "n_c07_defaults"),
+    native("n_c20_tables", ["C20"], "C20.tables", "climatedata::{JULYRADDATA, MONTHLYRADDATA, CLIMATEMETADATA, ClimateZone}", EN + "n_c20_tables"),
     native("n_c09_n50", ["C09"], "C09.n50", "N50Data::from(&EnergyProps)", EN + "n_c09_n50"),
     native("n_c10_qsoljul", ["C10"], "C10.qsoljul", "QSolJulData::from(&EnergyProps, &HashMap<Orientation,f32>)", EN + "n_c10_qsoljul"),
     native("n_c10_july_table", ["C10", "C20"], "C10.table", "climatedata::total_radiation_in_july_by_orientation", EN + "n_c10_july_table"),
